@@ -216,6 +216,7 @@ Definition step (i : instance) (e : event) : outcome (instance * list tobs) :=
   | EvBmca => bmca i
   | EvSetClockQuality q => Ok (set_quality i q, [(-1, wr_lock)])
   | EvSetSlaveOnly b => Ok (set_slave_only i b, [(-1, wr_lock)])
+  | EvTick _ => Ok (i, [])
   end.
 
 Definition snapshot_of (i : instance) : snapshot :=
